@@ -226,7 +226,40 @@ class Shadow(object):
             if r.tgt.upper() == kh and r.src.upper() == K and r.tgt_phrase == phrase:
                 found = True
                 out += [s for s in self.partners(i, h, False) if s not in out]
-        return out if found else None
+        if found:
+            return out
+        # two hops through an association class: h ->M[rel, phrase] ->kind[rel, phrase]
+        for i, r in enumerate(self.schema.rops):
+            if r.rel != rel:
+                continue
+            mids = []
+            if r.src.upper() == kh and r.src_phrase == phrase:
+                mids.append(r.tgt.upper())
+            if r.tgt.upper() == kh and r.tgt_phrase == phrase:
+                mids.append(r.src.upper())
+            for M in mids:
+                if M in (kh, K) and M == K:
+                    continue
+                probe = self._direct(M, K, rel, phrase)
+                if not probe:
+                    continue
+                found = True
+                for mid in self.navigate(h, M, rel, phrase) or []:
+                    for x in self.navigate(mid, K, rel, phrase) or []:
+                        if x not in out:
+                            out.append(x)
+                return out
+        return None
+
+    def _direct(self, frm, to, rel, phrase):
+        for r in self.schema.rops:
+            if r.rel != rel:
+                continue
+            if r.src.upper() == frm and r.tgt.upper() == to and r.src_phrase == phrase:
+                return True
+            if r.tgt.upper() == frm and r.src.upper() == to and r.tgt_phrase == phrase:
+                return True
+        return False
 
     def read(self, h, attr, depth=0):
         '''
@@ -323,6 +356,9 @@ class Bound(object):
         self.shadow = Shadow(schema)
         self.inst = {}                 # handle -> instance (also dead ones)
         self.hid = {}                  # id(instance) -> handle
+        # False for loaded models: the order among the links of one instance
+        # is then not specified by any property (only the link set is)
+        self.ordered_links = True
 
     def handle_of(self, inst):
         if inst is None:
@@ -372,12 +408,17 @@ class Bound(object):
                         got = [self.handle_of(x) for x in got]
                     except xtuml.MetaException as e:
                         got = 'raised %s' % type(e).__name__
-                    if got != exp:
+                    if not self.ordered_links and isinstance(got, list):
+                        same = sorted(got, key=repr) == sorted(exp, key=repr)
+                    else:
+                        same = got == exp
+                    if not same:
                         diffs.append(('navigate', 'from #%d ->%s[R%d,%r]: %r, expected %r'
                                       % (h, to, r.rel, phrase, got, exp)))
                     one = xtuml.navigate_one(inst).nav(to, r.rel, phrase)()
                     exp1 = exp[0] if exp else None
-                    if self.handle_of(one) != exp1:
+                    if (self.handle_of(one) != exp1 if self.ordered_links
+                            else (self.handle_of(one) in exp) != bool(exp)):
                         diffs.append(('navigate_one', 'from #%d ->%s[R%d,%r]: %r, expected %r'
                                       % (h, to, r.rel, phrase, self.handle_of(one), exp1)))
             if not sh.alive[h]:
